@@ -500,6 +500,21 @@ static float spec_utility(int s) {
   float sum = 0.0f; for (int c = s + 1; c < VM_NS; ++c) if (VM_SPEC[c].parent == s) sum += spec_utility(c);
   return g_util_val[s] * (sum / VM_SPEC[s].width);
 }
+// the anonymous head of a headless region defines nothing, so it must answer exactly like a state that overrides nothing
+// (State::select() = 0, rank() = 0, utility() = 1): contract on the real wrappers of S_<..., EmptyT>
+static void body_anonymous_defaults() {
+  Instance f VM_CTOR;
+  typename Instance::Control c{f._core};
+  using Args_ = typename FSM::Args;
+  hfsm2::detail::S_<hfsm2::detail::I_<0, 0, 0, 0>, Args_, hfsm2::detail::EmptyT<Args_>> anon;
+  hfsm2::detail::EmptyT<Args_> plain;                        // what a user state that defines nothing inherits
+  VREACH("anonymous head");
+  VASSERT(C12, anon.wrapUtility(c) == plain.utility(c), "an anonymous region head has the default utility (a headless nested region is worth its best sub-state)");
+  VASSERT(C12, anon.deepReportUtilize(c).utility == plain.utility(c) && anon.deepReportChange(c).utility == plain.utility(c) && anon.deepReportRandomize(c) == plain.utility(c),
+          "an anonymous region head reports the default utility to the enclosing region (utilize, change, randomize)");
+  VASSERT(C12, anon.wrapRank(c) == plain.rank(c) && anon.deepReportRank(c) == plain.rank(c), "an anonymous region head has the default rank");
+  VASSERT(C02/C01, anon.wrapSelect(c) == plain.select(c), "an anonymous region head selects like the default select()");
+}
 static bool all_children_leaves(int r) { for (int c = r + 1; c < VM_NS; ++c) if (VM_SPEC[c].parent == r && VM_SPEC[c].kind != K_LEAF) return false; return true; }
 static void body_utilize_nested(int region, int full) {         // utilize(region): every nested region entered resolves by utility too
   ARBITRARY_ACTIVE(f);
